@@ -132,6 +132,30 @@ pub fn run(e: &'static Engine) {
         }));
     }
     e.par(jobs);
+    // automatic-mask sweep over small/medium versions (penalty ties), padded forced versions, steered matrices
+    let total: u32 = e.tier.pick(16000, 240000);
+    let shards = e.tier.pick(32u32, 96);
+    let mut jobs: Vec<Job> = Vec::new();
+    for _ in 0..shards {
+        jobs.push(Box::new(move |jc: &mut JobCtx| {
+            let strat = crate::gens::auto_mask_small();
+            jc.run_prop(2 << 20, &strat, total / shards, |(c, _, _)| c.to_json(), |(c, fam, _), o| {
+                o.label("part:auto_mask_small");
+                check(c, fam, o)
+            });
+            let strat = crate::gens::padded_forced();
+            jc.run_prop(3 << 20, &strat, total / shards / 8, |(c, _, _)| c.to_json(), |(c, fam, _), o| {
+                o.label("part:padded_forced_version");
+                check(c, fam, o)
+            });
+            let strat = crate::gens::steered_case(1, 40, true);
+            jc.run_prop(4 << 20, &strat, total / shards / 16, |(c, _)| c.to_json(), |(c, fam), o| {
+                o.label("part:steered");
+                check(c, fam, o)
+            });
+        }));
+    }
+    e.par(jobs);
     let _ = Level::L;
     e.put("cells_total", 480.into());
     e.set_exhaustive(false, "configuration cells are enumerated completely (160 version/level pairs x 9 mask settings; thorough: x 12 mode/version settings); payload content and length are sampled");
